@@ -390,4 +390,9 @@ func TestVerifC16(t *testing.T) {
 		tr.Case(c, map[bool]string{true: "orderly", false: "racy"}[orderly])
 		run(c16Gen(root.Fork(), orderly))
 	}
+	// corpus: the history of the known finding runs on every seed (a purchase of ours ends, the contract is bought
+	// again before the ended purchase's controller has returned)
+	tr.Case(n, "racy")
+	run([]string{"chain c1 seller=o1 buyer=- validator=- state=0", "startmgr", "purchased c1 buyer=o2 validator=me", "closed c1",
+		"purchased c1 buyer=o2 validator=me", "ctlexit c1", "settled"})
 }
